@@ -353,6 +353,12 @@ def gen_case(rnd, tier='quick'):
             a_['estimate'] = rnd.choice([0, 0.0, 3, 2.5])       # 0 is a value, not "nothing"
         if rnd.random() < 0.2:
             a_['spent'] = rnd.choice([0, 0.0, 1])
+        if rnd.random() < 0.25:
+            # the other documented fields: planning constraints and recorded dates are field values like any other
+            from vf.env import REAL as _R
+            f_ = rnd.choice(['min_start', 'start', 'end', 'resource', 'milestone', 'min_start'])
+            a_[f_] = {'resource': rnd.choice(['R1', '']), 'milestone': rnd.choice([True, 1])}.get(f_) if f_ in ('resource', 'milestone') \
+                else _R(2026, 1, rnd.randint(1, 28), rnd.choice([0, 9]))
         if rnd.random() < 0.1:
             a_[rnd.choice(['cost center', '2nd reviewer'])] = rnd.choice([1, 'me', None])     # e.g. a CSV column title
     wattrs = [({'note': rnd.choice(['n', 3]), 'owner': 'me'} if rnd.random() < 0.5 else {}) for _ in spec['wbs']]
